@@ -52,7 +52,10 @@ def replay_chunk(ctx, texts):
         rate = impl.Rate("VERIF-RATE")
         cash = impl.Cash()
         ex.process_EventNBBO(impl.EventNBBO(BASE, cash, 1.0, 1.0))
-        ex.process_EventNBBO(impl.EventNBBO(BASE, rate, float(r), float(r)))
+        # every other behaviour the reference rate is published as a two-sided quote around it (Transmitter.add_prices with a
+        # spread does that to every column): the reference rate is the mid, whatever the sign of the balance
+        half = 0.0078125 if out["n"] % 2 == 1 else 0.0
+        ex.process_EventNBBO(impl.EventNBBO(BASE, rate, float(r) - half, float(r) + half))
         br = impl.Broker(ex, cash, deposit=float(sign), fees=impl.BrokerFees(markup=float(m), interest_rate=rate))
         ops = list(s["hist"])
         bad = None
@@ -128,7 +131,8 @@ def record_traces(n, length, seed):
         rate = impl.Rate("VERIF-RATE")
         cash = impl.Cash()
         ex.process_EventNBBO(impl.EventNBBO(BASE, cash, 1.0, 1.0))
-        ex.process_EventNBBO(impl.EventNBBO(BASE, rate, float(r), float(r)))
+        half = 0.0078125 if k % 3 == 1 else 0.0              # a two-sided rate quote around the reference rate (dyadic: exact mid)
+        ex.process_EventNBBO(impl.EventNBBO(BASE, rate, float(r) - half, float(r) + half))
         br = impl.Broker(ex, cash, deposit=float(dep), fees=impl.BrokerFees(markup=float(m), interest_rate=rate))
         y, acc, ops = rnd.choice([0, 1]), None, []
         for _ in range(length):
